@@ -131,6 +131,7 @@ def run(ctx):
     _x86_opcode_extensions(ctx)
     _x86_factory_widths(ctx)
     _mips_opcodes(ctx)
+    _m68k_long_immediates(ctx)
     arm_addressing_bits(ctx, "C08.R9")
 
 
@@ -667,6 +668,21 @@ def _mips_opcodes(ctx):
         calls = [c for c in ast.walk(ctx.project.module(rel).tree) if isinstance(c, ast.Call) and norm(c.func) == "make_r" and c.args and _tc8(c.args[0]) == mn]
         ok = len(calls) == 1 and any(k.arg == "shift" and _tc8(k.value) is True for k in calls[0].keywords)
         ctx.ob("C08.R16", rel, "`%s` is built with the variable-shift operand order" % mn, ok, construct="mips-shift-order:" + mn)
+
+
+def _m68k_long_immediates(ctx):
+    """R17.  M68000 PRM 2.2.15 (immediate data): a byte or word immediate takes one extension word, a LONG immediate two.  ppci has one
+    immediate constructor for every operation size; it carries a 16-bit token."""
+    ctx.rule("C08.R17", "m68k: an immediate source operand of a long (.l) operation is encoded with a 32-bit extension (two extension words)", floor=1)
+    rel = "ppci/arch/m68k/instructions.py"
+    mod = ctx.project.module(rel)
+    imm = ctx.cls(rel, "ImmediateEa")
+    toks = [norm(n.value) for n in imm.body if isinstance(n, ast.Assign) and norm(n.targets[0]) == "tokens"]
+    sized = [c.name for c in mod.tree.body if isinstance(c, ast.ClassDef) and c.name != "ImmediateEa" and any(norm(b) == "Constructor" for b in c.bases)
+             and any(isinstance(n, ast.Assign) and norm(n.targets[0]) == "syntax" and "'#'" in norm(n.value) for n in c.body) and any("Imm32Token" in norm(n.value) for n in c.body if isinstance(n, ast.Assign) and norm(n.targets[0]) == "tokens")]
+    longs = sorted(_tc8(c.args[0]) for c in ast.walk(mod.tree) if isinstance(c, ast.Call) and norm(c.func) in ("make_ea_dn", "make_ea") and c.args and isinstance(_tc8(c.args[0]), str) and _tc8(c.args[0]).endswith("l"))
+    ctx.ob("C08.R17", rel + ":ImmediateEa", "long operations (%s) have an immediate form with a 32-bit extension" % ", ".join(longs[:6]), bool(sized) or toks != ["[Imm16Token]"] or not longs, construct="m68k-long-immediate",
+           node=imm, detail="the only `#imm` source constructor has tokens %s" % toks)
 
 
 def _ancestors8(n, stop):
